@@ -56,6 +56,7 @@ func (w *World) BuildReplay(o *Obligation, fr *FuncResult) *ReplayResult {
 		v, ok := o.Model[term]
 		return v, ok
 	}
+	maxLen := int64(64)
 	inputs := map[string]InputLeaf{}
 	for _, in := range fr.Inputs {
 		inputs[in.Path] = in
@@ -104,6 +105,9 @@ func (w *World) BuildReplay(o *Obligation, fr *FuncResult) *ReplayResult {
 			}
 			if l > 1<<22 || c > 1<<26 {
 				return "", false
+			}
+			if c > maxLen {
+				maxLen = c
 			}
 			ts := types.TypeString(t, q)
 			elems := ""
@@ -174,6 +178,9 @@ func (w *World) BuildReplay(o *Obligation, fr *FuncResult) *ReplayResult {
 	}
 	test := "TestLzvcReplay"
 	fmt.Fprintf(&sb, "//go:build verif\n\npackage %s\n\nimport (\n\t\"fmt\"\n\t\"testing\"\n)\n\n", pkg.Name)
+	if strings.Contains(clauseGo, "lzvcForall(") {
+		fmt.Fprintf(&sb, "// bounded executable reading of a universally quantified clause: indices -2..%d\nfunc lzvcForall(f func(int) bool) bool {\n\tfor i := -2; i <= %d; i++ {\n\t\tif !f(i) {\n\t\t\treturn false\n\t\t}\n\t}\n\treturn true\n}\n\n", maxLen+2, maxLen+2)
+	}
 	fmt.Fprintf(&sb, "// replay of obligation %s\nfunc %s(t *testing.T) {\n", o.ID(), test)
 	for _, d := range decls {
 		fmt.Fprintf(&sb, "\t%s\n", d)
@@ -323,14 +330,24 @@ func exprToGo(fset *token.FileSet, e ast.Expr) string {
 
 var _ = parser.ParseExpr
 
+var multiBinderRe = regexp.MustCompile(`forall_\(func\([^)]*,`)
+
 // clauseToGo turns a quantifier-free spec clause into an executable Go
 // expression over the replay variables (recv, a_<param>, r<i>); old(E) is
 // evaluated before the call.
 func clauseToGo(text string, fd *ast.FuncDecl) (string, []string) {
 	src := xformSpec(text)
-	if strings.Contains(src, "forall_") || strings.Contains(src, "exists_") || strings.Contains(src, "cur(") ||
+	if strings.Contains(src, "exists_") || strings.Contains(src, "cur(") || strings.Contains(src, "g_") ||
 		strings.Contains(src, "arrOf(") || strings.Contains(src, "offOf(") || strings.Contains(src, "isFresh(") || strings.Contains(src, "decKept(") {
 		return "", nil
+	}
+	// single-binder universal quantifiers are executed over a bounded index range (lzvcForall is
+	// generated into the replay test; the range covers every input slice of the model)
+	if strings.Contains(src, "forall_") {
+		if multiBinderRe.MatchString(src) {
+			return "", nil
+		}
+		src = strings.ReplaceAll(src, "forall_(func(", "lzvcForall(func(")
 	}
 	src = resultRe.ReplaceAllStringFunc(src, func(m string) string {
 		k := 0
@@ -388,17 +405,50 @@ func clauseToGo(text string, fd *ast.FuncDecl) (string, []string) {
 	}
 	var olds []string
 	k := 0
-	var walk func(n ast.Node) ast.Node
-	replaceOld := func(call *ast.CallExpr) ast.Expr {
-		rename(call.Args[0], true)
+	bad := false
+	inClosure := 0
+	printE := func(n ast.Node) string {
 		var b bytes.Buffer
-		printer.Fprint(&b, token.NewFileSet(), call.Args[0])
+		printer.Fprint(&b, token.NewFileSet(), n)
+		return b.String()
+	}
+	hasNode := func(n ast.Node, pred func(ast.Node) bool) bool {
+		found := false
+		ast.Inspect(n, func(m ast.Node) bool {
+			if m != nil && pred(m) {
+				found = true
+			}
+			return !found
+		})
+		return found
+	}
+	replaceOld := func(call *ast.CallExpr) ast.Expr {
 		name := fmt.Sprintf("old_%d", k)
 		k++
-		olds = append(olds, fmt.Sprintf("%s := %s; _ = %s", name, b.String(), name))
+		if inClosure > 0 {
+			// old(X[IDX]) inside a quantifier body: snapshot the slice X before the call; IDX may only
+			// mention binders, parameters and literals (no fields or calls, whose value could change)
+			ix, ok := call.Args[0].(*ast.IndexExpr)
+			if !ok || hasNode(ix.Index, func(m ast.Node) bool {
+				switch m.(type) {
+				case *ast.SelectorExpr, *ast.CallExpr, *ast.IndexExpr:
+					return true
+				}
+				return false
+			}) || hasNode(ix.X, func(m ast.Node) bool { _, isCall := m.(*ast.CallExpr); return isCall }) {
+				bad = true
+				return call
+			}
+			rename(ix.X, true)
+			rename(ix.Index, true)
+			xs := printE(ix.X)
+			olds = append(olds, fmt.Sprintf("%s := append(%s[:0:0], %s...); _ = %s", name, xs, xs, name))
+			return &ast.IndexExpr{X: &ast.Ident{Name: name}, Index: ix.Index}
+		}
+		rename(call.Args[0], true)
+		olds = append(olds, fmt.Sprintf("%s := %s; _ = %s", name, printE(call.Args[0]), name))
 		return &ast.Ident{Name: name}
 	}
-	_ = walk
 	// replace old(...) calls (not nested) by pre-evaluated variables
 	var rewrite func(e ast.Expr) ast.Expr
 	rewrite = func(e ast.Expr) ast.Expr {
@@ -410,6 +460,22 @@ func clauseToGo(text string, fd *ast.FuncDecl) (string, []string) {
 			for i := range t.Args {
 				t.Args[i] = rewrite(t.Args[i])
 			}
+			if id, ok := t.Fun.(*ast.Ident); ok && id.Name == "implies" && len(t.Args) == 2 {
+				// short-circuit reading (the Go helper evaluates both operands)
+				return &ast.ParenExpr{X: &ast.BinaryExpr{Op: token.LOR,
+					X: &ast.UnaryExpr{Op: token.NOT, X: &ast.ParenExpr{X: t.Args[0]}}, Y: &ast.ParenExpr{X: t.Args[1]}}}
+			}
+			return t
+		case *ast.FuncLit:
+			if len(t.Body.List) == 1 {
+				if rs, ok := t.Body.List[0].(*ast.ReturnStmt); ok && len(rs.Results) == 1 {
+					inClosure++
+					rs.Results[0] = rewrite(rs.Results[0])
+					inClosure--
+					return t
+				}
+			}
+			bad = true
 			return t
 		case *ast.BinaryExpr:
 			t.X = rewrite(t.X)
@@ -435,6 +501,9 @@ func clauseToGo(text string, fd *ast.FuncDecl) (string, []string) {
 		return e
 	}
 	e = rewrite(e)
+	if bad {
+		return "", nil
+	}
 	rename(e, true)
 	var b bytes.Buffer
 	printer.Fprint(&b, token.NewFileSet(), e)
